@@ -540,6 +540,7 @@ func TestC05(t *testing.T) {
 	r := newRun(t, "C05", "exploration")
 	defer r.Finish()
 	r.Rule = "real Bitcoin taker state machines (both roles) against a scripted maker with scheduler-controlled heights: the maker pre-broadcasts the opening tx 0..3 blocks before the taker's start (swap-out), 0..510 blocks pass before the announcement, the confirmation notification is delayed, blocks arrive while the node pauses between payment attempts, restarts (before the announcement, before the confirmation, inside the payment), invoice final CLTV in {0,9,144,500..506}; oracle at every RebalancePayment crossing with exact integers: now + permitted(f) < h_conf + 1008 with now = the later of the chain's tip and the last tip reported to the node, where permitted(f) is read from the request the real builder produces for that invoice (CLN hop delay f+1; LND CltvLimit-1 = f+BlockPadding). distinct = (role, backend, now-start class, cltv, h_conf-start class, verdict)"
+	r.Rule += " In addition whole-node swap-out takers with the REAL rpc watcher (CLN) and the REAL lnd watcher over a fake chain notifier: the maker broadcasts as soon as it has the taker's key and delays the taker's start by 1..1100 blocks (held fee payment), announces 0..504 blocks later; failing first payments with blocks in between, restarts, lnd's GetInfo failing once after the confirmation event. Same oracle; findings are classified by formula (slack <= route delta - (h_conf-start); lnd first attempt: slack <= 1)."
 	r.Assumptions = []string{"now = height reported by the backend at the attempt; h_conf = height of the block that confirmed the opening tx in ground truth", "a payment can still be settled until its HTLC expiry = now + total CLTV delta the request permits"}
 	var cases []tlCase
 	rng := mrand.New(mrand.NewSource(r.Seed + 5))
@@ -692,6 +693,7 @@ func TestC24(t *testing.T) {
 	r := newRun(t, "C24", "exploration")
 	defer r.Finish()
 	r.Rule = "grid + random sweep of both real payment builders (CLN buildDirectClaimRoute, LND buildDirectClaimPaymentRequest, through the verif exports): invoice destination = channel peer / third party / self, amounts 1 msat..2^63, final CLTV -1..2^32, channel ids in both spellings and malformed, limits {0,32}; oracle: CLN route has exactly one hop over the swap channel (x spelling) to the invoice payee for the invoice amount; LND request names exactly the swap channel, MaxParts 1, the invoice itself and no amount override, and is refused when the invoice destination is not the channel's remote peer. In addition every fee/claim payment crossing of the world runs (C01 workload) must name the swap's channel. distinct = (backend, destination class, scid spelling, cltv class, limit, outcome)"
+	r.Rule += " The channel the real lnd client resolves the swap's channel id to (CheckChannel over a fake ListChannels: own channel present / missing / short of funds, other channels of the same peer and of third parties around it, both spellings) must be the swap's own channel or an error."
 	r.Assumptions = []string{"the real CLN/LND RPC calls (sendpay, SendPaymentV2) are not executed: what is checked is the route / request object the real builders hand to them", "CLN: 'to the channel's peer' is enforced by lightningd for a one-hop route over that channel"}
 	// which channel the real lnd client resolves the swap's channel id to (what OutgoingChanIds is filled from)
 	c24ChannelLookup(r, mrand.New(mrand.NewSource(r.Seed+2400)), r.N(3000, 100000))
